@@ -1,13 +1,15 @@
 //! Engine A command line.
 //!
-//!   sim run <C05|C08|C09|C11|C20> <quick|thorough> --out <partial-evidence.json> [--replays <dir>]
+//!   sim run <C05|C08|C09|C11|C20> <quick|thorough> --out <partial-evidence.json> [--replays <dir>] [--known <file>]
 //!   sim replay <file>        exit 1 and a REPRODUCED line if the recorded violation reproduces
-//!   sim digest <PROP> <n>    prints per-run event-log digests (determinism self-test)
+//!   sim digest <PROP> <n>    prints per-batch digests (determinism self-test)
 //!
-//! Exit codes: 0 property held on everything explored, 1 violation (VIOLATION line printed after
-//! minimisation and a fresh-process replay), 2 harness error.
+//! Exit codes: 0 property held on everything explored (KNOWN-FINDING lines possible), 1 violation
+//! (VIOLATION line printed after minimisation and a fresh-process replay), 2 harness error.
 
+mod cases;
 mod exact;
+mod faulty;
 mod free;
 mod machines;
 mod minimize;
@@ -17,11 +19,13 @@ mod runner;
 mod tape;
 mod world;
 
-use free::{SizeClass, Trace};
+use cases::Case;
+use free::{Reach, SizeClass, Trace};
 use machines::Machine;
 use oracle::{Stats, Violation};
 use runner::{Batch, JobOut};
 use serde_json::{json, Value};
+use std::collections::{BTreeMap, BTreeSet};
 use std::path::{Path, PathBuf};
 
 pub const DEFAULT_SEED: u64 = 20260929;
@@ -30,39 +34,154 @@ fn verif_seed() -> u64 {
     std::env::var("VERIF_SEED").ok().and_then(|s| s.trim().parse::<u64>().ok()).unwrap_or(DEFAULT_SEED)
 }
 
-fn exec_generic<M: Machine>(tr: &Trace, stats: &mut Stats) -> (Option<Violation>, free::Reach) {
+/// A replayable artifact.
+#[derive(Clone, Debug)]
+pub enum Art {
+    Trace(Trace),
+    Case(Case),
+}
+
+impl Art {
+    fn to_json(&self, v: &Violation) -> Value {
+        match self {
+            Art::Trace(t) => {
+                let mut t = t.clone();
+                t.violation = Some(v.clone());
+                t.to_json()
+            }
+            Art::Case(c) => json!({
+                "engine": "A", "config": "fault-case", "property": v.property, "machine": c.entry.name(),
+                "case": c.to_json(),
+                "violation": {"property": v.property, "invariant": v.invariant, "slot": v.slot, "detail": v.detail},
+            }),
+        }
+    }
+    fn label(&self) -> String {
+        match self {
+            Art::Trace(t) => format!("{}-{}", t.machine, t.run_index),
+            Art::Case(c) => c.entry.name().to_string(),
+        }
+    }
+}
+
+fn known_keys() -> &'static BTreeSet<String> {
+    static K: std::sync::OnceLock<BTreeSet<String>> = std::sync::OnceLock::new();
+    K.get_or_init(|| load_known().into_iter().map(|(_, k, _)| k).collect())
+}
+
+/// (property, match key, text) of every `open:` line of the known-findings file
+fn load_known() -> Vec<(String, String, String)> {
+    let path = std::env::var("VERIF_KNOWN").unwrap_or_else(|_| "/verif/KNOWN_FINDINGS.txt".into());
+    let mut out = Vec::new();
+    if let Ok(txt) = std::fs::read_to_string(path) {
+        for line in txt.lines() {
+            let line = line.trim();
+            if let Some(rest) = line.strip_prefix("open:") {
+                let mut prop = String::new();
+                let mut key = String::new();
+                let mut text = Vec::new();
+                for w in rest.split_whitespace() {
+                    if let Some(p) = w.strip_prefix("property=") {
+                        if prop.is_empty() {
+                            prop = p.to_string();
+                            continue;
+                        }
+                    }
+                    if let Some(k) = w.strip_prefix("match=") {
+                        if key.is_empty() {
+                            key = k.to_string();
+                            continue;
+                        }
+                    }
+                    text.push(w);
+                }
+                out.push((prop, key, text.join(" ")));
+            }
+        }
+    }
+    out
+}
+
+fn exec_free_generic<M: Machine>(tr: &Trace, stats: &mut Stats) -> (Vec<Violation>, Reach, Vec<(String, u64)>) {
+    let (v, r) = free::exec::<M>(tr, stats);
+    (v.into_iter().collect(), r, vec![])
+}
+fn exec_fault_generic<M: Machine>(tr: &Trace, stats: &mut Stats) -> (Vec<Violation>, Reach, Vec<(String, u64)>) {
+    faulty::exec::<M>(tr, stats, known_keys())
+}
+
+pub fn exec_trace(tr: &Trace, stats: &mut Stats) -> (Vec<Violation>, Reach, Vec<(String, u64)>) {
     match tr.config.as_str() {
-        "free" | "trees" | "long" => free::exec::<M>(tr, stats),
+        "free" | "trees" | "long" => dispatch_machine!(tr.machine.as_str(), exec_free_generic, tr, stats),
+        "fault" => dispatch_machine!(tr.machine.as_str(), exec_fault_generic, tr, stats),
         other => panic!("config {other} is not executable by this build"),
     }
 }
 
-pub fn exec_trace(tr: &Trace, stats: &mut Stats) -> (Option<Violation>, free::Reach) {
-    dispatch_machine!(tr.machine.as_str(), exec_generic, tr, stats)
+fn exec_art(a: &Art, stats: &mut Stats) -> Vec<Violation> {
+    match a {
+        Art::Trace(t) => exec_trace(t, stats).0,
+        Art::Case(c) => cases::judge(c, &cases::run_case(c)),
+    }
 }
 
 fn gen_free<M: Machine>(property: &str, seed: u64, run: u64, size: SizeClass) -> Trace {
     free::generate::<M>(property, seed, run, size)
 }
+fn gen_fault<M: Machine>(property: &str, seed: u64, run: u64, mode: faulty::Mode) -> Trace {
+    faulty::generate::<M>(property, seed, run, mode)
+}
+fn enum_nonpos<M: Machine>(seed: u64, max_len: usize) -> Vec<Trace> {
+    faulty::enumerate_nonpositive::<M>(seed, max_len)
+}
 
 fn is_nontrivial(tr: &Trace) -> bool {
     use world::Event;
     let merges = tr.events.iter().filter(|e| matches!(e, Event::Merge { .. })).count();
-    let delivers = tr.events.iter().filter(|e| matches!(e, Event::Deliver { len, .. } if *len > 0)).count();
-    merges >= 1 && delivers >= 2
+    let delivers = tr.events.iter().filter(|e| matches!(e, Event::Deliver { len, .. } | Event::Fault { len, .. } if *len > 0)).count();
+    let faults = tr.events.iter().filter(|e| matches!(e, Event::Fault { .. })).count();
+    (merges >= 1 && delivers >= 2) || faults >= 1
 }
 
-fn free_batch(property: &'static str, machines: &'static [&'static str], runs_per_machine: u64, size: SizeClass, seed: u64, label: &str) -> Batch {
+/// a compact, human-readable rendering of a run for the evidence file
+pub fn sample_of(t: &Trace) -> Value {
+    let evs: Vec<String> = t.events.iter().take(16).map(|e| format!("{:?}", e)).collect();
+    let tb = |t: &tape::TapeSpec| match t {
+        tape::TapeSpec::Explicit(v) => json!({"explicit_len": v.len()}),
+        tape::TapeSpec::Gen { family, len, scale_exp, .. } => json!({"family": tape::FAMILY_NAMES[*family as usize % 10], "len": len, "scale_exp": scale_exp}),
+    };
+    json!({
+        "config": t.config, "machine": t.machine, "run_index": t.run_index,
+        "tapes": [tb(&t.tapes[0]), tb(&t.tapes[1])],
+        "exact_data": t.exact_data, "knobs": t.knobs, "n_events": t.events.len(), "first_events": evs,
+    })
+}
+
+fn trace_job(tr: Trace, mi: u32, stats: &mut Stats, want_sample: bool) -> JobOut<Art> {
+    let (violations, reach, fired) = exec_trace(&tr, stats);
+    let nontrivial = is_nontrivial(&tr);
+    let sample = if want_sample { Some(sample_of(&tr)) } else { None };
+    let label = (mi, tr.machine.clone());
+    JobOut { artifact: if violations.is_empty() { None } else { Some(Art::Trace(tr)) }, violations, reach, nontrivial, fired, sample, label }
+}
+
+fn free_batch(property: &'static str, machines: &'static [&'static str], runs_per_machine: u64, size: SizeClass, seed: u64, label: &str) -> Batch<Art> {
     let nm = machines.len() as u64;
-    let machine_of = move |j: u64| ((j % nm) as u32, machines[(j % nm) as usize].to_string());
-    runner::run_batch(label, runs_per_machine * nm, 3 * machines.len(), &machine_of, move |j, stats| {
+    runner::run_batch(label, runs_per_machine * nm, true, move |j, stats| {
         let m = machines[(j % nm) as usize];
         let run = j / nm;
         let tr: Trace = dispatch_machine!(m, gen_free, property, seed, run, size);
-        let (violation, reach) = exec_trace(&tr, stats);
-        let nontrivial = is_nontrivial(&tr);
-        let keep = violation.is_some() || j < 3 * nm;
-        JobOut { trace: if keep { Some(tr) } else { None }, violation, reach, nontrivial, fired: vec![] }
+        trace_job(tr, (j % nm) as u32, stats, j < 2 * nm)
+    })
+}
+
+fn fault_batch(property: &'static str, machines: &'static [&'static str], runs_per_machine: u64, mode: faulty::Mode, seed: u64, label: &str) -> Batch<Art> {
+    let nm = machines.len() as u64;
+    runner::run_batch(label, runs_per_machine * nm, false, move |j, stats| {
+        let m = machines[(j % nm) as usize];
+        let run = j / nm;
+        let tr: Trace = dispatch_machine!(m, gen_fault, property, seed, run, mode);
+        trace_job(tr, (j % nm) as u32, stats, j < nm)
     })
 }
 
@@ -81,6 +200,7 @@ const C09_MACHINES: [&str; 12] = [
     "proportion::Stats",
     "quantile::Stats",
 ];
+const C05_MACHINES: [&str; 4] = ["Geometric<f32>", "Geometric<f64>", "Harmonic<f32>", "Harmonic<f64>"];
 
 struct Ctx {
     property: String,
@@ -91,69 +211,138 @@ struct Ctx {
     t0: std::time::Instant,
 }
 
-/// Minimise, persist, replay in a fresh process; prints the VIOLATION line. Returns the path.
-fn report_violation(ctx: &Ctx, tr: &Trace) -> PathBuf {
-    let v = tr.violation.as_ref().expect("violation");
-    eprintln!("[sim] violation found: property={} invariant={} machine={} run={} : {}", v.property, v.invariant, tr.machine, tr.run_index, v.detail);
-    let exec = |t: &Trace| -> Option<Violation> {
-        let mut st = Stats::default();
-        exec_trace(t, &mut st).0
+/// Minimise, persist, replay in a fresh process; prints VIOLATION or KNOWN-FINDING. Returns
+/// true if the violation is a new one (not listed as an open known finding).
+fn report(ctx: &Ctx, art: &Art, v: &Violation) -> bool {
+    let known = load_known();
+    if let Some((_, k, text)) = known.iter().find(|(p, k, _)| *p == v.property && *k == v.invariant) {
+        println!("KNOWN-FINDING: property={} {} : {}", v.property, k, text);
+        return false;
+    }
+    eprintln!("[sim] violation: property={} invariant={} at {} : {}", v.property, v.invariant, art.label(), v.detail);
+    let key = v.key();
+    let (min_art, min_v, used, orig_events) = match art {
+        Art::Trace(tr) => {
+            let mut tr = tr.clone();
+            tr.violation = Some(v.clone());
+            let exec = |t: &Trace| -> Option<Violation> {
+                let mut st = Stats::default();
+                exec_trace(t, &mut st).0.into_iter().find(|x| x.key() == key)
+            };
+            let mut budget = minimize::Budget::new(2000, 20);
+            let min = minimize::minimize(&tr, &exec, &mut budget);
+            eprintln!("[sim] minimised {} -> {} events in {} re-executions", tr.events.len(), min.events.len(), budget.used);
+            let mv = min.violation.clone().unwrap();
+            (Art::Trace(min), mv, budget.used, tr.events.len())
+        }
+        Art::Case(c) => (Art::Case(minimize_case(c, &key)), v.clone(), 0, 0),
     };
-    let mut budget = minimize::Budget::new(2000, 20);
-    let min = minimize::minimize(tr, &exec, &mut budget);
-    eprintln!("[sim] minimised {} -> {} events in {} re-executions", tr.events.len(), min.events.len(), budget.used);
+    // re-derive the violation text of the minimised artifact
+    let min_v = {
+        let mut st = Stats::default();
+        exec_art(&min_art, &mut st).into_iter().find(|x| x.key() == key).unwrap_or(min_v)
+    };
     std::fs::create_dir_all(&ctx.replays).ok();
-    let mv = min.violation.as_ref().unwrap();
-    let name = format!("{}-{}-{}-{}.json", mv.property, mv.invariant, tr.machine.replace(['<', '>', ':'], "_"), tr.run_index);
+    let clean = |s: &str| s.chars().map(|c| if c.is_ascii_alphanumeric() || c == '-' || c == '_' || c == '.' { c } else { '_' }).collect::<String>();
+    let name = format!("{}-{}-{}.json", min_v.property, clean(&min_v.invariant), clean(&art.label()));
     let path = ctx.replays.join(name);
-    let mut j = min.to_json();
-    j["original_event_count"] = json!(tr.events.len());
-    j["minimiser_executions"] = json!(budget.used);
+    let mut j = min_art.to_json(&min_v);
+    j["original_event_count"] = json!(orig_events);
+    j["minimiser_executions"] = json!(used);
     std::fs::write(&path, serde_json::to_string_pretty(&j).unwrap()).expect("write replay file");
-    // fresh-process replay
     let exe = std::env::current_exe().expect("current_exe");
     let outp = std::process::Command::new(exe).arg("replay").arg(&path).output().expect("spawn replay");
     let so = String::from_utf8_lossy(&outp.stdout);
-    let want = format!("REPRODUCED property={} invariant={}", mv.property, mv.invariant);
+    let want = format!("REPRODUCED property={} invariant={}", min_v.property, min_v.invariant);
     if outp.status.code() != Some(1) || !so.contains(&want) {
         eprintln!("[sim] HARNESS ERROR: fresh-process replay of {} did not reproduce ({:?}): {}", path.display(), outp.status.code(), so);
         std::process::exit(2);
     }
-    println!("[sim] {}: {}", mv.invariant, mv.detail);
-    println!("VIOLATION property={} replay={}", mv.property, path.display());
-    path
+    println!("[sim] {}: {}", min_v.invariant, min_v.detail);
+    println!("VIOLATION property={} replay={}", min_v.property, path.display());
+    true
 }
 
-fn write_partial(ctx: &Ctx, level: &str, batches: &[&Batch], violations: u64, rule: &str, assumptions: &[&str], extra: Value) {
+/// shrink a fault case: shorter streams while the same violation key persists
+fn minimize_case(c: &Case, key: &(String, String)) -> Case {
+    let fails = |c: &Case| cases::judge(c, &cases::run_case(c)).iter().any(|v| v.key() == *key);
+    let mut best = c.clone();
+    let mut progress = true;
+    while progress {
+        progress = false;
+        for which in 0..2 {
+            let len = if which == 0 { best.a.len() } else { best.b.len() };
+            for i in 0..len {
+                let mut cand = best.clone();
+                if which == 0 {
+                    cand.a.remove(i);
+                } else {
+                    cand.b.remove(i);
+                }
+                if fails(&cand) {
+                    best = cand;
+                    progress = true;
+                    break;
+                }
+            }
+        }
+    }
+    best
+}
+
+/// Reports every distinct violation of the batches; returns the number of new (unknown) ones.
+fn report_all(ctx: &Ctx, batches: &[&Batch<Art>]) -> u64 {
+    let mut merged: BTreeMap<(String, String), (u64, &Art, &Violation)> = BTreeMap::new();
+    for b in batches {
+        for (k, (j, a, v)) in &b.violations {
+            merged.entry(k.clone()).or_insert((*j, a, v));
+        }
+    }
+    let mut new = 0;
+    for (_, (_, a, v)) in merged {
+        if report(ctx, a, v) {
+            new += 1;
+        }
+    }
+    new
+}
+
+#[allow(clippy::too_many_arguments)]
+fn write_partial(ctx: &Ctx, level: &str, batches: &[&Batch<Art>], violations: u64, rule: &str, assumptions: &[&str], extra: Value, exhaustive_note: Option<&str>) {
     let evaluations: u64 = batches.iter().map(|b| b.evaluations).sum();
     let distinct: u64 = batches.iter().map(|b| b.nontrivial_shapes.len() as u64).sum();
     let mut samples: Vec<Value> = Vec::new();
     for b in batches {
-        samples.extend(b.samples.iter().take(6).cloned());
+        samples.extend(b.samples.iter().take(4).cloned());
     }
     let wall = ctx.t0.elapsed().as_secs_f64();
     let steps: u64 = batches.iter().map(|b| b.steps).sum();
-    let j = json!({
-        "property_id": ctx.property,
-        "tier": ctx.tier,
-        "seed": ctx.seed,
-        "level": level,
-        "coverage": {
-            "evaluations": evaluations,
-            "distinct_nontrivial": distinct,
-            "rule": rule,
-            "samples": samples,
-            "engine_A": {
-                "batches": batches.iter().map(|b| b.to_json()).collect::<Vec<_>>(),
-                "simulated_time_steps": steps,
-                "runs_per_hour": if wall > 0.0 { evaluations as f64 / wall * 3600.0 } else { 0.0 },
-                "worker_threads": runner::n_workers(),
-            },
-            "extra": extra,
+    let mut fired: BTreeMap<String, u64> = BTreeMap::new();
+    for b in batches {
+        for (k, v) in &b.fired {
+            *fired.entry(k.clone()).or_insert(0) += v;
+        }
+    }
+    let mut cov = json!({
+        "evaluations": evaluations,
+        "distinct_nontrivial": distinct,
+        "rule": rule,
+        "samples": samples,
+        "engine_A": {
+            "batches": batches.iter().map(|b| b.to_json()).collect::<Vec<_>>(),
+            "simulated_time_steps": steps,
+            "runs_per_hour": if wall > 0.0 { evaluations as f64 / wall * 3600.0 } else { 0.0 },
+            "worker_threads": runner::n_workers(),
+            "fault_kinds_fired": fired,
         },
-        "assumptions": assumptions,
-        "wall_s": wall,
-        "violations": violations,
+        "extra": extra,
+    });
+    if let Some(n) = exhaustive_note {
+        cov["exhaustive_subspaces"] = json!(n);
+    }
+    let j = json!({
+        "property_id": ctx.property, "tier": ctx.tier, "seed": ctx.seed, "level": level,
+        "coverage": cov, "assumptions": assumptions, "wall_s": wall, "violations": violations,
     });
     if let Some(p) = ctx.out.parent() {
         std::fs::create_dir_all(p).ok();
@@ -163,44 +352,111 @@ fn write_partial(ctx: &Ctx, level: &str, batches: &[&Batch], violations: u64, ru
 
 fn run_c08(ctx: &Ctx) -> i32 {
     let thorough = ctx.tier == "thorough";
-    let (n_small, n_med) = if thorough { (400_000, 60_000) } else { (40_000, 6_000) };
+    let (n_small, n_med) = if thorough { (1_000_000, 150_000) } else { (100_000, 15_000) };
     let b1 = free_batch("C08", &C08_MACHINES, n_small, SizeClass::Small, ctx.seed, "free/small(2..64 records)");
-    let b2 = if b1.violation.is_none() {
-        free_batch("C08", &C08_MACHINES, n_med, SizeClass::Medium, ctx.seed ^ 0x11, "free/medium(2..4096 records)")
-    } else {
-        Batch::default()
-    };
+    let b2 = if b1.violations.is_empty() { free_batch("C08", &C08_MACHINES, n_med, SizeClass::Medium, ctx.seed ^ 0x11, "free/medium(2..4096 records)") } else { Batch::default() };
     let rule = "one evaluation = one seeded history (deliveries in 6 register styles, merges in 4 orientations, forks, empty operands, queries, final reduction by one of 5 merge policies) executed on the real KahanSum/Arithmetic and checked against the exact rational sum; distinct = distinct event-shape sequences (event kind, style, operator, chunk-length bucket; data erased); non-trivial = at least one merge and two non-empty deliveries";
     let assumptions = ["exact reference = fixed-point super-accumulator + num-bigint (sim/src/exact.rs)", "K = 8, bound (K*u + 4*n*u^2)*sum|x| (DESIGN 5.2)", "tape magnitudes bounded so that no sum overflows"];
-    let viol = b1.violation.as_ref().or(b2.violation.as_ref());
-    if let Some(tr) = viol {
-        report_violation(ctx, tr);
-        write_partial(ctx, "exploration", &[&b1, &b2], 1, rule, &assumptions, json!({}));
-        return 1;
+    let firsts: Vec<&(u64, Art, Violation)> = [&b1, &b2].iter().filter_map(|b| b.first_violation()).collect();
+    let mut new = 0;
+    if let Some((_, a, v)) = firsts.first() {
+        if report(ctx, a, v) {
+            new = 1;
+        }
     }
-    write_partial(ctx, "exploration", &[&b1, &b2], 0, rule, &assumptions, json!({}));
-    0
+    write_partial(ctx, "exploration", &[&b1, &b2], new, rule, &assumptions, json!({}), None);
+    if new > 0 {
+        1
+    } else {
+        0
+    }
 }
 
 fn run_c09(ctx: &Ctx) -> i32 {
     let thorough = ctx.tier == "thorough";
-    let (n_small, n_med) = if thorough { (150_000, 20_000) } else { (15_000, 2_000) };
+    let (n_small, n_med) = if thorough { (300_000, 40_000) } else { (30_000, 4_000) };
     let b1 = free_batch("C09", &C09_MACHINES, n_small, SizeClass::Small, ctx.seed, "free/small(2..64 records)");
-    let b2 = if b1.violation.is_none() {
-        free_batch("C09", &C09_MACHINES, n_med, SizeClass::Medium, ctx.seed ^ 0x22, "free/medium(2..4096 records)")
-    } else {
-        Batch::default()
-    };
+    let b2 = if b1.violations.is_empty() { free_batch("C09", &C09_MACHINES, n_med, SizeClass::Medium, ctx.seed ^ 0x22, "free/medium(2..4096 records)") } else { Batch::default() };
     let rule = "one evaluation = one seeded API-call program over {new/default, append, extend (Vec/VecDeque/LinkedList/Option/array), from_iter, copy/clone, +, +=, inherent add, merge with empty, query} delivering a multiset to one of 12 machine kinds, compared with the batch computation of the same multiset; distinct = distinct event-shape sequences (data erased); non-trivial = at least one merge and two non-empty deliveries";
     let assumptions = ["tolerances are first-order rounding bounds with K = 8, c_v = 40 (DESIGN 5.3); below the conditioning threshold only count and mean are compared", "exact reference = sim/src/exact.rs"];
-    let viol = b1.violation.as_ref().or(b2.violation.as_ref());
-    if let Some(tr) = viol {
-        report_violation(ctx, tr);
-        write_partial(ctx, "exploration", &[&b1, &b2], 1, rule, &assumptions, json!({}));
-        return 1;
+    let firsts: Vec<&(u64, Art, Violation)> = [&b1, &b2].iter().filter_map(|b| b.first_violation()).collect();
+    let mut new = 0;
+    if let Some((_, a, v)) = firsts.first() {
+        if report(ctx, a, v) {
+            new = 1;
+        }
     }
-    write_partial(ctx, "exploration", &[&b1, &b2], 0, rule, &assumptions, json!({}));
-    0
+    write_partial(ctx, "exploration", &[&b1, &b2], new, rule, &assumptions, json!({}), None);
+    if new > 0 {
+        1
+    } else {
+        0
+    }
+}
+
+fn run_c05(ctx: &Ctx) -> i32 {
+    let thorough = ctx.tier == "thorough";
+    // (1) exhaustive small scope: tapes <= 8, every position x payload x style x machine
+    let max_len = 8;
+    let mut all: Vec<Trace> = Vec::new();
+    for m in C05_MACHINES {
+        let v: Vec<Trace> = dispatch_machine!(m, enum_nonpos, ctx.seed, max_len);
+        all.extend(v);
+    }
+    let n_enum = all.len() as u64;
+    let all_ref = &all;
+    let b1: Batch<Art> = runner::run_batch("enumerated(non-positive record at every position of tapes <= 8)", n_enum, false, move |j, stats| {
+        let tr = all_ref[j as usize].clone();
+        let mi = C05_MACHINES.iter().position(|m| *m == tr.machine).unwrap_or(0) as u32;
+        trace_job(tr, mi, stats, j % (n_enum / 4).max(1) == 0)
+    });
+    // (2) seeded fault histories
+    let n = if thorough { 400_000 } else { 40_000 };
+    let b2 = fault_batch("C05", &C05_MACHINES, n, faulty::Mode::NonPositive, ctx.seed, "seeded fault histories (non-positive corruption, early EOF, merges, forks, queries)");
+    // (3) fault-free histories: the twin refinement on states reached by merges of clean data
+    let b3 = fault_batch("C05", &C05_MACHINES, n / 4, faulty::Mode::Totality, ctx.seed ^ 0x55, "seeded histories, all corruption kinds (twin refinement on healthy slots)");
+    let rule = "one evaluation = one history on a real Geometric/Harmonic state and its real Arithmetic twin (fed ln x resp. 1/x in lock step): clean deliveries in 10 styles, a chaos task overwriting a record with +0/-0/negative/-subnormal/-MAX/-inf (every position x payload x style for tapes <= 8, seeded beyond), merges, forks, queries; distinct = distinct event-shape sequences (fault kind, position bucket, style; data erased); non-trivial = at least one fault or one merge of two non-empty deliveries";
+    let assumptions = ["the twin receives x.ln() resp. 1/x computed in the element type; tolerance 16u(1+mean|t|) allows any equally valid re-association", "transform clauses have no schedule/fault dimension of their own: they are evaluated as lock-step invariants on every state the runs reach (DESIGN 5.1)"];
+    let new = report_all(ctx, &[&b1, &b2, &b3]);
+    write_partial(ctx, "fault_enumeration", &[&b1, &b2, &b3], new, rule, &assumptions, json!({"enumerated_cases": n_enum}), Some("non-positive record x position x delivery style x machine for tapes of length <= 8: exhaustive"));
+    if new > 0 {
+        1
+    } else {
+        0
+    }
+}
+
+fn run_c11(ctx: &Ctx) -> i32 {
+    let thorough = ctx.tier == "thorough";
+    // (1) exhaustive fault cases against every entry point
+    let cases_v = cases::enumerate(ctx.seed, 6);
+    let n_cases = cases_v.len() as u64;
+    let cref = &cases_v;
+    let b1: Batch<Art> = runner::run_batch("enumerated fault cases (entry point x fault kind x position x confidence, streams <= 6)", n_cases, false, move |j, stats| {
+        let c = &cref[j as usize];
+        let out = cases::run_case(c);
+        let violations = cases::judge(c, &out);
+        stats.inc("cases_judged");
+        stats.inc(&format!("outcome:{}", out.ci.class().split('(').next().unwrap_or("?")));
+        let mut reach = Reach::default();
+        reach.shape = cases::case_shape(c);
+        reach.steps = 1;
+        let fired = vec![(c.fault.split('(').next().unwrap_or("").to_string(), 1u64)];
+        let sample = if j % (n_cases / 6).max(1) == 0 { Some(json!({"case": c.to_json(), "outcome": format!("{:?}", out.ci)})) } else { None };
+        JobOut { artifact: if violations.is_empty() { None } else { Some(Art::Case(c.clone())) }, violations, reach, nontrivial: c.fault != "none", fired, sample, label: (0, c.entry.name().to_string()) }
+    });
+    // (2) seeded fault-then-continue histories on long-lived states
+    let n = if thorough { 150_000 } else { 15_000 };
+    let b2 = fault_batch("C11", &C09_MACHINES, n, faulty::Mode::Totality, ctx.seed, "seeded fault histories on long-lived states (corrupt / early EOF / desync / duplicate, then merges, forks, queries)");
+    let rule = "one evaluation = one fault case (an entry point fed a stream carrying one fault at one position, with one confidence) or one seeded fault history on a long-lived state; the oracle classifies the actual input and demands: no panic except the documented ones, no Ok with a NaN or inverted bound, the documented error variant (with payload when a single class is present); distinct = distinct (entry, type, lengths, fault, position, confidence, style) tuples resp. event-shape sequences; non-trivial = a fault is present";
+    let assumptions = ["documented variants are taken from the rustdoc of each entry point (TooFewSamples, InvalidInputData, NonPositiveValue, InvalidSuccesses, TooFewSuccesses, TooFewFailures, InvalidQuantile, DifferentSampleSizes)", "degenerate but valid data (constant, overflowing, underflowing) may yield any Err or a valid Ok", "confidence levels are drawn from [0.001, 0.9999] through the checked constructors"];
+    let new = report_all(ctx, &[&b1, &b2]);
+    write_partial(ctx, "fault_enumeration", &[&b1, &b2], new, rule, &assumptions, json!({"enumerated_cases": n_cases}), Some("entry point x fault kind x position x confidence kind for streams of length <= 6: exhaustive"));
+    if new > 0 {
+        1
+    } else {
+        0
+    }
 }
 
 fn main() {
@@ -238,8 +494,10 @@ fn main() {
             let ctx = Ctx { property: args[2].clone(), tier: args[3].clone(), seed: verif_seed(), out, replays, t0: std::time::Instant::now() };
             println!("[sim] VERIF_SEED={} property={} tier={} workers={}", ctx.seed, ctx.property, ctx.tier, runner::n_workers());
             let code = match ctx.property.as_str() {
+                "C05" => run_c05(&ctx),
                 "C08" => run_c08(&ctx),
                 "C09" => run_c09(&ctx),
+                "C11" => run_c11(&ctx),
                 other => {
                     eprintln!("property {other} has no Engine A check in this build");
                     2
@@ -263,51 +521,86 @@ fn main() {
                     std::process::exit(2);
                 }
             };
-            let tr = match Trace::from_json(&v) {
-                Ok(t) => t,
-                Err(e) => {
-                    eprintln!("bad replay file: {e}");
-                    std::process::exit(2);
+            let (art, recorded): (Art, Option<(String, String)>) = if v.get("config").and_then(|x| x.as_str()) == Some("fault-case") {
+                let c = match Case::from_json(&v["case"]) {
+                    Ok(c) => c,
+                    Err(e) => {
+                        eprintln!("bad replay file: {e}");
+                        std::process::exit(2);
+                    }
+                };
+                let rec = v.get("violation").map(|x| (x["property"].as_str().unwrap_or("").to_string(), x["invariant"].as_str().unwrap_or("").to_string()));
+                (Art::Case(c), rec)
+            } else {
+                match Trace::from_json(&v) {
+                    Ok(t) => {
+                        let rec = t.violation.as_ref().map(|v| v.key());
+                        (Art::Trace(t), rec)
+                    }
+                    Err(e) => {
+                        eprintln!("bad replay file: {e}");
+                        std::process::exit(2);
+                    }
                 }
             };
             let mut st = Stats::default();
-            let (viol, _) = exec_trace(&tr, &mut st);
-            match (viol, &tr.violation) {
-                (Some(v), Some(rec)) if v.key() == rec.key() => {
-                    println!("REPRODUCED property={} invariant={} slot={} : {}", v.property, v.invariant, v.slot, v.detail);
-                    std::process::exit(1);
-                }
-                (Some(v), _) => {
-                    println!("DIFFERENT violation on replay: property={} invariant={} : {}", v.property, v.invariant, v.detail);
-                    std::process::exit(if tr.violation.is_some() { 2 } else { 1 });
-                }
-                (None, Some(rec)) => {
-                    println!("NOT REPRODUCED: recorded {} / {} does not occur on this tree", rec.property, rec.invariant);
+            let viols = exec_art(&art, &mut st);
+            match recorded {
+                Some(key) => {
+                    if let Some(v) = viols.iter().find(|x| x.key() == key) {
+                        println!("REPRODUCED property={} invariant={} slot={} : {}", v.property, v.invariant, v.slot, v.detail);
+                        std::process::exit(1);
+                    }
+                    if let Some(v) = viols.first() {
+                        println!("DIFFERENT violation on replay: property={} invariant={} : {}", v.property, v.invariant, v.detail);
+                        std::process::exit(2);
+                    }
+                    println!("NOT REPRODUCED: recorded {} / {} does not occur on this tree", key.0, key.1);
                     std::process::exit(0);
                 }
-                (None, None) => {
+                None => {
+                    if let Some(v) = viols.first() {
+                        println!("REPRODUCED property={} invariant={} slot={} : {}", v.property, v.invariant, v.slot, v.detail);
+                        std::process::exit(1);
+                    }
                     println!("trace passes");
                     std::process::exit(0);
                 }
             }
         }
         "digest" => {
-            // per-run digests of generated event lists + outcomes, for the determinism self-test
             let prop: &'static str = match args[2].as_str() {
                 "C08" => "C08",
+                "C05" => "C05",
+                "C11" => "C11",
                 _ => "C09",
             };
             let n: u64 = args[3].parse().unwrap_or(64);
-            let machines: &'static [&'static str] = if prop == "C08" { &C08_MACHINES } else { &C09_MACHINES };
             let seed = verif_seed();
-            let b = free_batch(prop, machines, n, SizeClass::Small, seed, "digest");
+            let b = match prop {
+                "C08" => free_batch(prop, &C08_MACHINES, n, SizeClass::Small, seed, "digest"),
+                "C05" => fault_batch(prop, &C05_MACHINES, n, faulty::Mode::NonPositive, seed, "digest"),
+                "C11" => fault_batch(prop, &C09_MACHINES, n, faulty::Mode::Totality, seed, "digest"),
+                _ => free_batch(prop, &C09_MACHINES, n, SizeClass::Small, seed, "digest"),
+            };
             let mut shapes: Vec<u64> = b.shapes.iter().copied().collect();
             shapes.sort_unstable();
             let mut d = rng::Digest::new();
             for s in &shapes {
                 d.u64(*s);
             }
-            println!("seed={} evaluations={} shapes={} digest={:016x} counters={:?} worst={:?} violation={}", seed, b.evaluations, shapes.len(), d.0, b.stats.counters, b.stats.worst.iter().map(|(k, v)| (k.clone(), v.to_bits())).collect::<Vec<_>>(), b.violation.is_some());
+            println!(
+                "seed={} evaluations={} shapes={} digest={:016x} steps={} counters={:?} worst={:?} fired={:?} violations={:?}",
+                seed,
+                b.evaluations,
+                shapes.len(),
+                d.0,
+                b.steps,
+                b.stats.counters,
+                b.stats.worst.iter().map(|(k, v)| (k.clone(), v.to_bits())).collect::<Vec<_>>(),
+                b.fired,
+                b.violations.keys().collect::<Vec<_>>()
+            );
         }
         other => {
             eprintln!("unknown command {other}");
